@@ -32,7 +32,7 @@ def _expr(e, env):
     if isinstance(e, ast.UnaryOp) and isinstance(e.op, ast.Not):
         return f"(!{_expr(e.operand, env)})"
     if isinstance(e, ast.Name):
-        if e.id in env:
+        if e.id in env and not e.id.startswith("__"):
             return env[e.id]
         raise Untranslatable(f"name {e.id}")
     if isinstance(e, ast.BoolOp):
@@ -40,6 +40,45 @@ def _expr(e, env):
         return "(" + op.join(_expr(v, env) for v in e.values) + ")"
     if isinstance(e, ast.Set):
         return "([" + ", ".join(_expr(x, env) for x in e.elts) + "] : List Int)"
+    if isinstance(e, ast.Call) and isinstance(e.func, ast.Name) and e.func.id in env.get("__funcs__", {}) and not e.keywords:
+        # call of a small pure module-level helper: inline its body
+        fn = env["__funcs__"][e.func.id]
+        params = [a.arg for a in fn.args.args]
+        if len(params) != len(e.args) or fn.args.vararg or fn.args.kwarg or fn.args.kwonlyargs:
+            raise Untranslatable(f"call {e.func.id}: unsupported signature")
+        if env.get("__depth__", 0) > 4:
+            raise Untranslatable("helper nesting too deep")
+        sub = dict(env)
+        sub["__depth__"] = env.get("__depth__", 0) + 1
+        for prm, arg in zip(params, e.args):
+            sub[prm] = _expr(arg, env)
+        return _block(fn.body, sub)
+    if isinstance(e, ast.Compare) and len(e.ops) == 1 and isinstance(e.left, ast.Tuple) \
+            and isinstance(e.comparators[0], ast.Tuple) and len(e.left.elts) == len(e.comparators[0].elts) \
+            and len(e.left.elts) > 0:
+        # lexicographic comparison of equal-length tuples of ints
+        ls = [_expr(x, env) for x in e.left.elts]
+        rs = [_expr(x, env) for x in e.comparators[0].elts]
+        op = type(e.ops[0])
+
+        def lex(i, strict, orequal):
+            # strict: "<" or ">" symbol; orequal: value when all components are equal
+            if i == len(ls):
+                return "true" if orequal else "false"
+            return f"((decide ({ls[i]} {strict} {rs[i]})) || (({ls[i]} == {rs[i]}) && {lex(i + 1, strict, orequal)}))"
+        if op is ast.Lt:
+            return lex(0, "<", False)
+        if op is ast.LtE:
+            return lex(0, "<", True)
+        if op is ast.Gt:
+            return lex(0, ">", False)
+        if op is ast.GtE:
+            return lex(0, ">", True)
+        if op is ast.Eq:
+            return "(" + " && ".join(f"({a} == {b})" for a, b in zip(ls, rs)) + ")"
+        if op is ast.NotEq:
+            return "(!(" + " && ".join(f"({a} == {b})" for a, b in zip(ls, rs)) + "))"
+        raise Untranslatable("tuple comparison " + op.__name__)
     if isinstance(e, ast.Compare):
         parts = []
         left = e.left
@@ -94,6 +133,14 @@ def _block(stmts, env):
         if s.value is None:
             raise Untranslatable("bare return")
         return _expr(s.value, env)
+    if isinstance(s, (ast.Assign, ast.AnnAssign)) and rest:
+        # local binding of a pure expression: substitute
+        tgt = s.targets[0] if isinstance(s, ast.Assign) and len(s.targets) == 1 else getattr(s, "target", None)
+        if isinstance(tgt, ast.Name) and s.value is not None:
+            sub = dict(env)
+            sub[tgt.id] = _expr(s.value, env)
+            return _block(rest, sub)
+        raise Untranslatable("assignment form")
     if isinstance(s, ast.If):
         then = _block(s.body, env)
         if not (s.orelse or rest):
@@ -130,14 +177,27 @@ def gen_errors(src: Path):
                 v = ast.literal_eval(n.value)
             except Exception:
                 v = None
+            def set_elts(node):
+                """elements of a set-valued expression: {..}, frozenset({..}), set([..]), A | B"""
+                if isinstance(node, ast.Set):
+                    return [consts[e.id] if isinstance(e, ast.Name) else int(ast.literal_eval(e)) for e in node.elts]
+                if isinstance(node, ast.Call) and isinstance(node.func, ast.Name) and node.func.id in ("frozenset", "set") \
+                        and len(node.args) == 1 and isinstance(node.args[0], (ast.Set, ast.List, ast.Tuple)):
+                    return [consts[e.id] if isinstance(e, ast.Name) else int(ast.literal_eval(e)) for e in node.args[0].elts]
+                if isinstance(node, ast.BinOp) and isinstance(node.op, ast.BitOr):
+                    return set_elts(node.left) + set_elts(node.right)
+                if isinstance(node, ast.Name) and node.id in sets:
+                    return list(sets[node.id])
+                return None
             if isinstance(v, int) and not isinstance(v, bool):
                 consts[nm] = v
-            elif isinstance(n.value, ast.Set):
+            elif nm.endswith("_ERRORS") or isinstance(n.value, ast.Set):
                 try:
-                    sets[nm] = [
-                        consts[e.id] if isinstance(e, ast.Name) else int(ast.literal_eval(e))
-                        for e in n.value.elts
-                    ]
+                    got = set_elts(n.value)
+                    if got is not None:
+                        sets[nm] = got
+                    elif nm in ("NON_RETRYABLE_ERRORS", "RETRYABLE_ERRORS"):
+                        raise ValueError("not a set expression the translator understands")
                 except Exception as ex:  # noqa
                     report["untranslatable"].append(f"errors.py:{n.lineno}: set {nm}: {ex}")
             elif isinstance(n.value, ast.Dict) and nm == "ERROR_MESSAGES":
@@ -156,13 +216,17 @@ def gen_errors(src: Path):
     if ret is None:
         report["untranslatable"].append("errors.py: RETRYABLE_ERRORS is not a set literal")
         ret = []
-    env = {"code": "code", "NON_RETRYABLE_ERRORS": "nonRetryable", "RETRYABLE_ERRORS": "retryable"}
+    env = {"NON_RETRYABLE_ERRORS": "nonRetryable", "RETRYABLE_ERRORS": "retryable"}
+    for k, v in sets.items():
+        env.setdefault(k, "([" + ", ".join(str(x) for x in v) + "] : List Int)")
     for k, v in consts.items():
         env.setdefault(k, f"({v} : Int)")
+    env["__funcs__"] = {n.name: n for n in tree.body if isinstance(n, ast.FunctionDef)}
     try:
         f = _find_func(tree, "is_retryable_error")
-        if [a.arg for a in f.args.args] != ["code"]:
+        if len(f.args.args) != 1:
             raise Untranslatable("is_retryable_error signature")
+        env[f.args.args[0].arg] = "code"
         body = _block(f.body, env)
     except Untranslatable as ex:
         report["untranslatable"].append(f"errors.py: is_retryable_error: {ex}")
@@ -225,21 +289,43 @@ def gen_versions(src: Path):
         if tr is None:
             raise Untranslatable("no try block")
         body = tr.body
-        int_assigns = [
-            (i, s) for i, s in enumerate(body)
-            if isinstance(s, ast.Assign) and isinstance(s.value, ast.Call)
-            and getattr(s.value.func, "id", None) == "int"
-        ]
-        if len(int_assigns) != 3:
-            raise Untranslatable("expected three int(...) assignments")
-        names = []
-        for k, (_, s) in enumerate(int_assigns):
-            arg = s.value.args[0]
-            if not (isinstance(arg, ast.Subscript) and isinstance(arg.slice, ast.Constant) and arg.slice.value == k):
-                raise Untranslatable("int() of parts[k] expected in order")
-            names.append(s.targets[0].id)
+        names, last = [], None
+
+        def is_int_of_part(v, k):
+            return (isinstance(v, ast.Call) and getattr(v.func, "id", None) == "int" and len(v.args) == 1
+                    and isinstance(v.args[0], ast.Subscript) and isinstance(v.args[0].slice, ast.Constant)
+                    and v.args[0].slice.value == k)
+
+        for i, st in enumerate(body):
+            if not isinstance(st, ast.Assign) or len(st.targets) != 1:
+                continue
+            tgt, val = st.targets[0], st.value
+            # year = int(parts[0]) ... in order
+            if isinstance(tgt, ast.Name) and is_int_of_part(val, len(names)):
+                names.append(tgt.id)
+                last = i
+            # year, month, day = int(parts[0]), int(parts[1]), int(parts[2])
+            elif isinstance(tgt, ast.Tuple) and len(tgt.elts) == 3 and not names and isinstance(val, ast.Tuple) \
+                    and len(val.elts) == 3 and all(is_int_of_part(v, k) for k, v in enumerate(val.elts)):
+                names = [t.id for t in tgt.elts]
+                last = i
+            # year, month, day = map(int, parts)  /  [int(p) for p in parts]  /  (int(p) for p in parts)
+            elif isinstance(tgt, ast.Tuple) and len(tgt.elts) == 3 and not names and (
+                (isinstance(val, ast.Call) and getattr(val.func, "id", None) == "map" and len(val.args) == 2
+                 and getattr(val.args[0], "id", None) == "int")
+                or (isinstance(val, (ast.ListComp, ast.GeneratorExp)) and isinstance(val.elt, ast.Call)
+                    and getattr(val.elt.func, "id", None) == "int" and len(val.generators) == 1
+                    and not val.generators[0].ifs)
+            ):
+                names = [t.id for t in tgt.elts]
+                last = i
+            if len(names) == 3:
+                break
+        if len(names) != 3:
+            raise Untranslatable("expected the three int() conversions of the version parts")
         env = dict(zip(names, ["year", "month", "day"]))
-        chain = _block(body[int_assigns[-1][0] + 1:], env)
+        env["__funcs__"] = {n.name: n for n in bt.body if isinstance(n, ast.FunctionDef)}
+        chain = _block(body[last + 1:], env)
     except Untranslatable as ex:
         report["untranslatable"].append(f"batching.py: supports_batching: {ex}")
 
